@@ -174,6 +174,8 @@ def check(res, text, expected, family, toks, at, base_text):
     res.count('rewritten_texts')
     res.count('fam_' + family.split(':')[0])
     if r[0] == 'ok' and r[1] == expected:
+        root = expected[1][0] if expected[0] == 'code' and expected[1] else expected
+        res.outcome('%s:%s:%s' % (family.split(':')[0], root[0], root[2][0] if len(root) > 2 and isinstance(root[2], tuple) else ''))
         return True
     a = toks[at - 1] if at is not None and 0 < at <= len(toks) else '^'
     b = toks[at] if at is not None and at < len(toks) else '$'
